@@ -67,7 +67,7 @@ func plans(thorough bool) []planT {
 	ti2 := t // default batches of 3 items, two environment deviations
 	ti2.Budget, ti2.OrderCost = 2, 2
 	i3 := famT{Name: "single-i3-mtb3", I: 3, MTB: 3, Pad: 1}
-	i4 := famT{Name: "single-i4-mtb2", I: 4, MTB: 2, Pad: 2}
+	i4 := famT{Name: "single-i4-mtb2", I: 4, MTB: 2, Pad: 3}
 	m2 := famT{Name: "multi-i2-mtb2", I: 2, MTB: 2, Multi: true}
 	all := []string{"lo", "hi", "dfs", "rdfs", "bfs"}
 	hD := []string{"fault-between", "caught-callee", "u-storage2", "gas-to-contract", "u-storage", "destroy-ub", "u-storage"}
@@ -79,7 +79,7 @@ func plans(thorough bool) []planT {
 		{i2, hS, []ptT{{7, 5}, {9, 7}}, []string{"mpt"}, all, t},
 		{i2, hD, []ptT{{7, 5}, {9, 5}}, []string{"mpt"}, []string{"lo", "rdfs"}, t},
 		{i3, hE, []ptT{{10, 7}, {7, 0}}, []string{"mpt"}, []string{"lo", "rdfs"}, t},
-		{i4, hA, []ptT{{11, 9}, {9, 0}}, []string{"mpt"}, []string{"lo", "dfs"}, t},
+		{i4, hA, []ptT{{13, 9}, {9, 0}}, []string{"mpt"}, []string{"lo", "dfs"}, t},
 		{m2, hA, []ptT{{7, 5}, {5, 0}}, []string{"mpt"}, []string{"lo", "rdfs"}, t},
 		{i2, hA, []ptT{{9, 7}}, []string{"mpt"}, []string{"lo"}, t2},
 		{i2, hS, []ptT{{9, 5}}, []string{"mpt"}, []string{"rdfs"}, t2},
@@ -177,9 +177,11 @@ func TestCheck(t *testing.T) {
 		"configurations":                            cfgNames,
 		"tries":                                     trieInfo,
 		"distinct_final_databases_per_source_point": finals,
-		"profile":                                   ps[0].prof,
-		"events":                                    "hdr(k headers | overlapping batch), node(x) for every currently unknown x, sub(x)=subtree answer of a peer, all(asc|desc), mix(good+corrupted), items(k | bad | gap | redo), blk (Module.AddBlock), pblk (Blockchain.AddBlock after the jump), flush, restart (same height | source tip), crash(i)=every new prefix of the batch log after each event (covers every stage batch of the state jump)",
-		"state_key":                                 "stage getters (IsActive, IsInitialized, NeedHeaders, NeedStorageData, NeedBlocks), sync point, header height, block height, Module.BlockHeight, unknown-node set, digest of the raw database, restarts so far, last stored key (items mode)",
+		"bounds":                                    "per configuration: one default delivery order (lowest hash | highest hash | pre-order | reverse pre-order | level by level) + every trace with at most <budget> deviations from it (a deviation = another unknown node, a subtree answer, an all-unknown batch, a good+corrupted batch, another item batch size / wrong / omitted item, a header batch that stops short of the tip or overlaps, flush, restart, restart with the tip as peer height, crash at a batch prefix); on traces without other deviations additionally ALL header splits below the sync point, ALL item batch sizes and ALL node orders once at most <tail> trie nodes are missing; thorough adds budget 2 for flush/restart/crash on three configurations",
+		"events":                                    "hdr(k) / hdr(overlap), node(x) for every currently unknown x, sub(x[,3]) = (truncated) subtree answer of a peer, all(asc|desc), mix(good+corrupted), nodedup (a later duplicate MPT message when nothing is requested any more), items(k | bad | gap | redo), blk = Module.AddBlock(next), pblk = Blockchain.AddBlock(next) after the jump, flush, restart (same peer height | source tip), crash(i) = database cut after the i-th batch of the last event (every stage batch of the state jump included)",
+		"wrong_data_menu":                           "per new state (full menu on the default line and after a deviation, two rotating entries elsewhere): duplicate / far-ahead / gapped / 6 kinds of tampered headers / good+tampered batch; headers, nodes, blocks outside their stage; already restored node, valid node below an unknown one, nodes of the trie of another height, requested node with one byte changed (4 positions; all positions of short nodes in thorough), truncated, garbage; empty / duplicate item batch, wrong root or height for InitContractStorageSync; duplicate / next-but-one / far-ahead / 3 kinds of tampered blocks for Module.AddBlock, duplicate / next-but-one / 4 kinds of tampered blocks for Blockchain.AddBlock",
+		"final_oracle":                              "at the jump and after every restart on a jumped database: height, block hash, GetStateRoot, local root, full contract storage dump, committee, validators, policy, natives, contracts, candidates equal to the source at that height; traceable blocks and their transactions readable; the key-value pairs enumerated through the stored state trie equal to the source's; every later block accepted with an observation (incl. execution results) equal to the source's; at the tip again after flush + garbage collection and after a restart",
+		"state_key":                                 "stage getters (IsActive, IsInitialized, NeedHeaders, NeedStorageData, NeedBlocks), sync point, header height, block height, Module.BlockHeight, unknown-node set, digest of the raw database, restarts so far, peer height given to Init, last stored key and harness flags (items mode)",
 	}, []string{
 		"equal state keys have equal futures: the part of the state that is only in memory is represented by the header height, the unknown-node set (which, for a fixed source trie, determines the restored set), the module's block height and the item stream position; the digest covers the flushed part",
 		"a corrupted trie node has another hash and is therefore not a requested node: the module ignores it (documented in restoreNode) - the oracle demands 'error or ignored' and an unchanged state for node data, an error for corrupted headers/blocks",
